@@ -38,6 +38,7 @@ REQUIRED = [
     "order_sound", "order_fuel_sufficient", "predecessors_correct", "order_assert_never_fires",
     "pop_block_targets_are_targets",
     "table_covers_python312", "table_flag_methods_consistent", "table_block_facts",
+    "try_ranges_closed_partial", "kept_starts_distinct",
 ]
 
 NPROC = min(16, os.cpu_count() or 4)
@@ -1420,8 +1421,11 @@ def main():
           "differential runs",
           "translate/opcode_table.py (introspects the Opcode subclasses of the repo under test; reference columns from "
           "pycnite's 3.12 tables and CPython's flowgraph.c fall-through list)",
-          "CPython's compiler, pycnite's disassembler and opcodes._add_setup_except are outside the model (their output is "
-          "the model's input, taken from the real run)",
+          "hand-written model of opcodes._add_setup_except/_add_exception_block/_get_exception_bitmask (Blocks/"
+          "SetupExcept.lean); tied by exact item-by-item comparison (offset, class, pre-set target, push/pop flags) on "
+          "every code object",
+          "CPython's compiler and pycnite's disassembler are outside the model (their output is the model's input, taken "
+          "from the real run)",
       ],
       assumptions=[
           "python_version (3,12) for compiled code (the interpreter of this image); 3.11 elision and <3.12 paths only via "
